@@ -282,7 +282,8 @@ def run(chk):
 
         def label(o):
             if o[0] in ("exit",):
-                return "reject"
+                # rejection means the process ends here; an exception only unwinds into the caller, who may catch it and go on
+                return "reject" if v.terminates_process(o[1]) else "does-not-abort(%s)" % (o[1],)
             if o[0] == "return":
                 n = sets[o[1]]["n"]
                 return {doc["Key-Switching key"][0]: "128", HISTORIC_80["n"]: "80"}.get(n, "other(n=%s)" % n)
